@@ -282,9 +282,9 @@ def cases(tier, seed):
         out.append(dict(id='send-%d' % mtu, kind='send', mtu=mtu, dense=thorough))
     out.append(dict(id='send-none', kind='send', mtu=None, dense=thorough))
     out.append(dict(id='oracle-segments', kind='oracle', seed=seed))
-    for rep in range(12 if thorough else 4):
+    for rep in range(40 if thorough else 4):
         out.append(dict(id='perm-%d' % rep, kind='perm', seed=seed * 17 + rep, maxn=6 if thorough else 5))
-    for rep in range(60 if thorough else 8):
+    for rep in range(240 if thorough else 8):
         out.append(dict(id='inter-%d' % rep, kind='inter', seed=seed * 29 + rep, count=10 if thorough else 5))
     return out
 
